@@ -241,6 +241,38 @@ def _r1b(run, mi):
                          "%s loads the thermal-CX rate set only under the additional condition %s: when it is false a donor that was given is "
                          "silently ignored" % (name, extra or sorted(f)))
     run.floor('C09-R1b', 5)
+    # the same for the ionisation / recombination rate sets: optional accelerators that default to None and are loaded from atomic_data
+    run.describe('C09-R1c', 'an optional rate set (coef_ion, coef_recom) that was not supplied is loaded from atomic_data before it is used, here or in '
+                            'a function of the module that is handed both atomic_data and the rate set')
+    for name, fn in sorted(mi.functions.items()):
+        ps = params_of(fn)
+        dflt = defaults_of(fn)
+        for p_, loader in (('coef_ion', 'get_rates_ionisation'), ('coef_recom', 'get_rates_recombination')):
+            if p_ not in ps or 'atomic_data' not in ps or not (isinstance(dflt.get(p_), ast.Constant) and dflt[p_].value is None):
+                continue
+            run.subject('C09-R1c')
+            if any(isinstance(c, ast.Call) and dotted(c.func) == loader for c in ast.walk(fn)):
+                run.ok('C09-R1c', '%s %s' % (name, p_), 'loaded with %s' % loader, sample=False)
+                continue
+            uses = [n for n in ast.walk(fn) if isinstance(n, ast.Name) and n.id == p_ and isinstance(n.ctx, ast.Load)]
+            handed = False
+            for c in ast.walk(fn):
+                if isinstance(c, ast.Call) and dotted(c.func) in mi.functions:
+                    g = mi.functions[dotted(c.func)]
+                    b = bind_call(c, g)
+                    if b is None:
+                        handed = True
+                        continue
+                    vals = {q: {n.id for n in ast.walk(v) if isinstance(n, ast.Name)} for q, v in b.items()}
+                    if any('atomic_data' in v for v in vals.values()) and any(p_ in v for v in vals.values()):
+                        handed = True
+            if uses and not handed:
+                run.fail('C09-R1c', '%s|%s|never-loaded:%s' % (MOD, name, p_), FILE, fn.lineno,
+                         "%s takes the optional rate set '%s' (default None) and uses it, but never loads it with %s and hands atomic_data together "
+                         "with it to no function of the module: a call without the rate set works on None" % (name, p_, loader))
+            else:
+                run.ok('C09-R1c', '%s %s' % (name, p_), 'handed on with atomic_data', sample=False)
+    run.floor('C09-R1c', 6)
 
 
 # ---------------------------------------------------------------------------------------------
